@@ -494,7 +494,23 @@ def check_values_keep_dtype(prog, rep, rule, pub, entry=None):
         if len(own) == 1 and not any(mentions(d[1], ('param', v)) for v in values if v not in dimnames):
             return own[0]
         return None
+    NARROW = {'float32': 'float32', 'f4': 'float32', 'single': 'float32', 'float16': 'float16', 'f2': 'float16', 'half': 'float16',
+              'int32': 'int32', 'i4': 'int32', 'int16': 'int16', 'i2': 'int16', 'int8': 'int8', 'i1': 'int8',
+              'uint32': 'uint32', 'u4': 'uint32', 'uint16': 'uint16', 'u2': 'uint16', 'uint8': 'uint8', 'u1': 'uint8', 'intc': 'int32'}
+
+    def narrow_dtype(d):
+        # a fixed dtype narrower than Python's own numbers (float64 / int64), by value: np.float32, 'f4', np.dtype('float32')
+        if not isinstance(d, tuple) or not d:
+            return None
+        if d[0] == 'global' and isinstance(d[1], str):
+            return NARROW.get(d[1].split('.')[-1])
+        if d[0] == 'const' and isinstance(d[1], str):
+            return NARROW.get(d[1].lstrip('<>=|'))
+        if d[0] == 'call' and str(d[1]).endswith('dtype') and len(d) > 2 and len(d[2]) == 1:
+            return narrow_dtype(d[2][0])
+        return None
     bad = []
+    narrow = []
     seen = set()
     for t in terms:
         for x in twalk(t):
@@ -511,16 +527,26 @@ def check_values_keep_dtype(prog, rep, rule, pub, entry=None):
             if opnd is None or dt is None:
                 continue
             r = raster_dtype(dt)
-            if r is None or any(mentions(opnd, ('param', q)) for q in rasters):
+            if r is None:
+                nd = narrow_dtype(dt)
+                if nd is not None and not any(mentions(opnd, ('param', q)) for q in rasters):
+                    src = [v for v in values if v not in dimnames and mentions(opnd, ('param', v))]
+                    if src and repr(x) not in seen:
+                        seen.add(repr(x))
+                        narrow.append((src[0], nd, tshow(x, 140)))
+                continue
+            if any(mentions(opnd, ('param', q)) for q in rasters):
                 continue
             src = [v for v in values if mentions(opnd, ('param', v))]
             if src and repr(x) not in seen:
                 seen.add(repr(x))
                 bad.append((src[0], r, tshow(x, 140)))
-    rep.add(rule, pub, entry, "the caller's value parameters reach the kernels in their own dtype", pub.node.lineno, not bad,
-            'a value parameter is cast to the dtype of the raster it is compared with: %s - a value that dtype cannot hold wraps or '
-            'truncates onto a legitimate cell value (-1 is 255 on uint8, 0.5 is 0, NaN is INT_MIN)'
-            % '; '.join('`%s` squeezed into the dtype of `%s` or of its coordinates (%s)' % b for b in bad[:2]), trivial=not values)
+    rep.add(rule, pub, entry, "the caller's value parameters reach the kernels in their own dtype", pub.node.lineno, not bad and not narrow,
+            'a value parameter is cast to the dtype of the raster it is compared with, or to a fixed dtype narrower than the numbers '
+            'the caller can pass: %s - a value that dtype cannot hold wraps, truncates or is rounded onto another value (-1 is 255 on '
+            'uint8, 0.5 is 0, NaN is INT_MIN, 0.1 as float32 is not the 0.1 of a float64 raster)'
+            % '; '.join(['`%s` squeezed into the dtype of `%s` or of its coordinates (%s)' % b for b in bad[:2]] +
+                        ['`%s` squeezed into %s (%s)' % b for b in narrow[:2]]), trivial=not values)
     return 1
 
 
